@@ -80,7 +80,7 @@ theorem isOption_long (name g3 : Str) (m : Mode) (hne : name ≠ []) (hq : ∀ c
 /-- the first character of an `SName` is an `SName` -/
 theorem sname_take (name : Str) (hn : SName name) : SName (name.take (utf8Width name)) := by
   obtain ⟨hne, hd, hq⟩ := hn
-  have hp := utf8Width_pos name hne
+  have hp := utf8Width_pos_ne name hne
   refine ⟨?_, ?_, fun c hc => hq c (List.mem_of_mem_take hc)⟩
   · cases name with
     | nil => exact absurd rfl hne
